@@ -238,11 +238,15 @@ func RecoverLegacyRawTransaction(ctx context.Context, rawTx ethtypes.HexBytes0xP
 		return nil, nil, i18n.NewError(ctx, signermsgs.MsgInvalidLegacyTransaction, err)
 	}
 
-	if decoded == nil || len(decoded.(rlp.List)) < 9 {
+	rlpList, isList := decoded.(rlp.List)
+	if !isList || len(rlpList) < 9 {
 		log.L(ctx).Errorf("Invalid legacy transaction data '%s': EOF", rawTx)
 		return nil, nil, i18n.NewError(ctx, signermsgs.MsgInvalidLegacyTransaction, "EOF")
 	}
-	rlpList := decoded.(rlp.List)
+	if !allData(rlpList[0:9]) || !validAddressLength(rlpList[3]) || !validSignatureLength(rlpList[7], rlpList[8]) {
+		log.L(ctx).Errorf("Invalid legacy transaction data '%s': unexpected element", rawTx)
+		return nil, nil, i18n.NewError(ctx, signermsgs.MsgInvalidLegacyTransaction, "unexpected element")
+	}
 
 	tx := &Transaction{
 		Nonce:    (*ethtypes.HexInteger)(rlpList[0].ToData().Int()),
@@ -310,15 +314,19 @@ func decodeEIP1559SignaturePayload(ctx context.Context, rawTx ethtypes.HexBytes0
 		log.L(ctx).Errorf("Invalid EIP-1559 transaction data '%s': %s", rawTx, err)
 		return nil, nil, i18n.NewError(ctx, signermsgs.MsgInvalidEIP1559Transaction, err)
 	}
-	rlpList := decoded.(rlp.List)
-
-	if len(rlpList) < rlpMinLen {
+	rlpList, isList := decoded.(rlp.List)
+	if !isList || len(rlpList) < rlpMinLen {
 		log.L(ctx).Errorf("Invalid EIP-1559 transaction data (%d RLP elements)", rlpList)
 		return nil, nil, i18n.NewError(ctx, signermsgs.MsgInvalidEIP1559Transaction, "EOF")
 	}
 	encodedChainID := rlpList[0].ToData().IntOrZero().Int64()
 	if encodedChainID != chainID {
 		return nil, nil, i18n.NewError(ctx, signermsgs.MsgInvalidChainID, chainID, encodedChainID)
+	}
+	// All the fields we decode must be data rather than lists (the access list at index 8 is not decoded)
+	if !allData(rlpList[0:8]) || !validAddressLength(rlpList[5]) {
+		log.L(ctx).Errorf("Invalid EIP-1559 transaction data '%s': unexpected element", rawTx)
+		return nil, nil, i18n.NewError(ctx, signermsgs.MsgInvalidEIP1559Transaction, "unexpected element")
 	}
 	return rlpList, &Transaction{
 		Nonce:                (*ethtypes.HexInteger)(rlpList[1].ToData().Int()),
@@ -342,6 +350,10 @@ func RecoverEIP1559Transaction(ctx context.Context, rawTx ethtypes.HexBytes0xPre
 	rlpList, tx, err := decodeEIP1559SignaturePayload(ctx, rawTx, chainID, 12 /* with signature data */)
 	if err != nil {
 		return nil, nil, err
+	}
+	if !allData(rlpList[9:12]) || !validSignatureLength(rlpList[10], rlpList[11]) {
+		log.L(ctx).Errorf("Invalid EIP-1559 transaction data '%s': unexpected signature element", rawTx)
+		return nil, nil, i18n.NewError(ctx, signermsgs.MsgInvalidEIP1559Transaction, "unexpected signature element")
 	}
 
 	return recoverCommon(tx,
@@ -370,6 +382,27 @@ func RecoverRawTransaction(ctx context.Context, rawTx ethtypes.HexBytes0xPrefix,
 		return nil, nil, i18n.NewError(ctx, signermsgs.MsgUnsupportedTransactionType, txTypeByte)
 	}
 
+}
+
+// allData checks none of the RLP elements we are going to decode as a value is a list,
+// so that the decoded fields always correspond to the payload the signature is checked against
+func allData(elements rlp.List) bool {
+	for _, e := range elements {
+		if e == nil || e.IsList() {
+			return false
+		}
+	}
+	return true
+}
+
+// validAddressLength checks the "to" address is empty (contract deploy) or 20 bytes
+func validAddressLength(to rlp.Element) bool {
+	return len(to.ToData()) == 0 || len(to.ToData()) == 20
+}
+
+// validSignatureLength checks the R and S values fit in 32 bytes
+func validSignatureLength(r, s rlp.Element) bool {
+	return len(r.ToData()) <= 32 && len(s.ToData()) <= 32
 }
 
 func (t *Transaction) addSignature(rlpList rlp.List, sig *secp256k1.SignatureData) rlp.List {
